@@ -28,6 +28,7 @@ ASSUMPTIONS = ["affine model vf/model/ec.py over model fields; curve constants d
                "points of E(Fp12) are those reachable from the API (twists, casts, sums, multiples)",
                "multiply is exercised for n >= 0 only (the property's domain)"]
 ENGINE = "exhaustive enumeration on small curves + hypothesis on the real curves"
+TECHNIQUE = ("exhaustive enumeration over small curves on ad-hoc field classes + property-based testing (Hypothesis) on the real curves, differential against an independent affine model")
 REQUIRED_LABELS = {t: ["A:pairs", "A:triples", "A:scalars", "A:opt:scaled", "B:collision:same",
                        "B:collision:inverse", "B:non_subgroup", "B:scalar>=2^200", "B:G12:sum", "C:consts",
                        "C:twist"] for t in ("quick", "thorough")}
